@@ -735,6 +735,15 @@ LeadDate(t) ==
      \/ t[5] \notin {cDash, cSlash, cColon} \/ t[8] # t[5] \/ (Len(t) > 10 /\ t[11] \notin {cT, cSp})
   THEN [has |-> FALSE]
   ELSE [has |-> TRUE, d |-> <<Num(Sub(t, 1, 4)), Num(Sub(t, 6, 7)), Num(Sub(t, 9, 10))>>]
+\* a fraction of ten or more digits cut back to its first nine (what the digits beyond the ninth can change is nothing:
+\* the value keeps six); <<>> when the text holds no such fraction
+RECURSIVE DigitRunEnd(_, _)
+DigitRunEnd(t, i) == IF i <= Len(t) /\ IsDigit(t[i]) THEN DigitRunEnd(t, i + 1) ELSE i - 1      \* last index of the run starting at i
+CutLongFraction(t) ==
+  LET j == FirstIn(t, {cDot, cComma}, 1) IN
+  IF j = 0 \/ j = Len(t) THEN <<>>
+  ELSE LET k == DigitRunEnd(t, j + 1) IN
+       IF k - j < 10 THEN <<>> ELSE Sub(t, 1, j + 9) \o Sub(t, k + 1, Len(t))
 J_parse_any(e) ==
   LET t == e.a.text  p == e.post  o == e.a.opts
       ascii == \A i \in 1..Len(t) : t[i] < 128
@@ -756,10 +765,24 @@ J_parse_any(e) ==
             "ValueError")
        \o (IF p.py.k # "exc" /\ p.rs.k # "exc" THEN V("backends-agree", SameLow(p.py, p.rs), p.py) ELSE <<>>)
        \o (IF o.strict /\ HasForeign(t) THEN V("strict-rejects-foreign-text", IsValueError(p.top), "ValueError") ELSE <<>>)
+       \* an interval has ONE solidus: two or more (outside a slash-separated date written up front) are no supported form
+       \o (IF o.strict /\ Cardinality({i \in 1..Len(t) : t[i] = cSlash}) >= 2 /\ ~(Len(t) >= 5 /\ t[5] = cSlash)
+           THEN V("strict-rejects-several-solidi", IsValueError(p.top) \/ (p.top.k = "exc" /\ "ValueError" \notin ToSet(p.top.names)), "ValueError")
+           ELSE <<>>)
        \o (IF r.ok /\ r.kind # "time" /\ r.d[1] >= 1583
            THEN LET v == IF r.kind = "date" /\ ~o.exact THEN [r EXCEPT !.kind = "datetime"] ELSE r IN CmpParsed(p.top, v, PendCls, "recognised")
            ELSE <<>>)
        \o (IF okd THEN CmpParsedDur(p.top, rd, "recognised-duration") ELSE <<>>)
+       \* "never a value computed from silently wrapped-around numbers": whoever accepts a fraction of ten or more digits
+       \* returns the value of the text with the fraction cut to nine digits
+       \o (LET cut == IF ascii /\ Len(t) <= 60 THEN CutLongFraction(t) ELSE <<>>
+               rc == IF cut # <<>> /\ Len(cut) <= 40 THEN Recognise(cut) ELSE Invalid
+           IN IF ~rc.ok \/ rc.kind = "time" \/ rc.d[1] < 1583 THEN <<>>
+              ELSE (IF p.top.k \in {"dt", "date"} /\ o.strict        \* strict=False may hand the text to dateutil, which re-reads it
+                    THEN CmpParsed(p.top, (IF rc.kind = "date" /\ ~o.exact THEN [rc EXCEPT !.kind = "datetime"] ELSE rc), PendCls, "long-fraction")
+                    ELSE <<>>)
+                   \o (IF p.rs.k \in {"dt", "date"} THEN CmpParsed(p.rs, rc, NativeCls, "long-fraction-rs") ELSE <<>>)
+                   \o (IF p.py.k \in {"dt", "date"} THEN CmpParsed(p.py, rc, NativeCls, "long-fraction-py") ELSE <<>>))
        \* extension: whatever else the string holds, a full date written up front is the date of the result, and an
        \* impossible one (month 13, day 0, year 0000) is never accepted
        \* (strict mode only: the dateutil fallback of strict=False re-reads the fields by its own rules)
